@@ -17,7 +17,9 @@ ALLOW_UNCONSTRAINED = {
     # generator family: how a call was made / annotations
     "upd.f", "fix.usz", "hashstream.reads", "hashstream.mr", "hashstream.rs", "stream.g", "file.g",
     # parse error kind / offset: the property names the offending PART only (reported as drift, see DESIGN)
-    "parse.r.*.kind", "parse.r.*.off",
+    "parse.r.*.kind", "parse.r.*.off", "parse.r.*.msg", "cmpstr.r.side", "cmpstr.r.origin", "cmpstr.r.kind", "cmpstr.r.off", "cmpstr.r.msg",
+    # likewise drift-only: block size relation between objects, array-level observers, error texts
+    "ord.rel", "ord.near", "ord.len1", "ord.len2", "ord.arr1", "ord.arr2", "errs.gen.*", "errs.op.*",
     # fields only meaningful in the other branch of an outcome
     "parse.r.*.k", "parse.r.*.a", "parse.r.*.b", "parse.r.*.valid", "parse.r.*.txt", "parse.r.*.ntxt", "parse.r.*.nvalid", "parse.r.*.origin",
     "fmt.T", "fmt.bufs.*.out", "fmt.bufs.*.untouched",
